@@ -335,3 +335,7 @@ func init() {
 		ruleFlushFailStop(c, r, "")
 	}
 }
+
+func init() {
+	debugRules["rc"] = func(c *Ctx, r *Report) { ruleRangeCoder(c, r, "") }
+}
